@@ -132,9 +132,9 @@ class Drillhole(Points):
     @cost.setter
     def cost(self, value: float | int):
         assert isinstance(
-            value, (float, int)
+            value, (float, int, np.number)
         ), f"Provided cost value must be of type {float} or int."
-        self._cost = value
+        self._cost = float(value)
         self.workspace.update_attribute(self, "attributes")
 
     @property
@@ -147,9 +147,9 @@ class Drillhole(Points):
     @end_of_hole.setter
     def end_of_hole(self, value: float | int | None):
         assert isinstance(
-            value, (int, float, type(None))
+            value, (int, float, np.number, type(None))
         ), f"Provided end_of_hole value must be of type {int}"
-        self._end_of_hole = value
+        self._end_of_hole = None if value is None else float(value)
         self.workspace.update_attribute(self, "attributes")
 
     @property
